@@ -214,12 +214,26 @@ func Generate(property, tier string, seed uint64) *Trace {
 		gen.Balances = append(gen.Balances, b)
 	}
 	if r.Chance(0.4) {
+		bigDust := r.Chance(0.4)
 		for i := 0; i < g.nAcct; i++ {
 			d := int64(0)
 			if r.Chance(0.5) {
 				d = int64(r.Range(1, 1000))
+				if bigDust {
+					d = int64(r.Range(1000000, 90000000)) // as much of it as of the stake denomination
+				}
 			}
 			gen.Dust = append(gen.Dust, d)
+		}
+		if r.Chance(0.5) {
+			// a third denomination nobody ever moves
+			for i := 0; i < g.nAcct; i++ {
+				t := int64(0)
+				if r.Chance(0.6) {
+					t = int64(r.Range(1, 50000000))
+				}
+				gen.Third = append(gen.Third, t)
+			}
 		}
 	}
 	// entropies: small counters in most runs, values beyond 2^53 in the others
@@ -887,7 +901,7 @@ func (g *gen) genTx(bi int) {
 		}
 		if r.Chance(0.03) {
 			s.To = []int{AcctFee, AcctDAO, AcctPos}[r.Intn(3)]
-			if s.To == AcctPos && bi < 2 {
+			if s.To == AcctPos && bi < 2 && !r.Chance(0.25) {
 				// observation O1 (DESIGN.md): coins sent to a module address before the module account
 				// exists create a plain account there and the next fee distribution halts the chain
 				s.To = AcctDAO
